@@ -20,8 +20,11 @@ use v::{dec, enc, gen_val, hex_or_dash};
 
 const TYPES: &[&str] = &["bool", "i16", "i32", "i64", "f64", "str", "blob", "dec", "date", "ts", "iv"];
 
-fn sql_type(ty: &str) -> &'static str {
-    match ty {
+fn sql_type(ty: &str) -> String {
+    if let Some(k) = ty.strip_prefix("decs") {
+        return format!("decimal(28,{k})");
+    }
+    (match ty {
         "bool" => "boolean",
         "i16" => "smallint",
         "i32" => "int",
@@ -34,7 +37,8 @@ fn sql_type(ty: &str) -> &'static str {
         "ts" => "timestamp",
         "iv" => "interval",
         _ => panic!("type {ty}"),
-    }
+    })
+    .to_string()
 }
 
 fn sql_char(b: u8) -> String {
@@ -117,7 +121,7 @@ fn dec_cell(ty: &str, t: &str) -> DataValue {
     use std::str::FromStr;
     match (ty, t.strip_prefix("s:")) {
         ("f64", Some(h)) => DataValue::Float64(String::from_utf8(unhex(h).unwrap()).unwrap().parse::<F64>().unwrap()),
-        ("dec", Some(h)) => DataValue::Decimal(v::Dec::from_str(&String::from_utf8(unhex(h).unwrap()).unwrap()).unwrap()),
+        (t, Some(h)) if t.starts_with("dec") => DataValue::Decimal(v::Dec::from_str(&String::from_utf8(unhex(h).unwrap()).unwrap()).unwrap()),
         _ => dec(t),
     }
 }
@@ -279,8 +283,18 @@ fn gen_cell(r: &mut Rng, ty: &str, d: u8, q: u8, e: Option<u8>, hazard: u64) -> 
             }
         }
         "dec" => {
-            // decimal columns are declared without scale: values keep their own
-            gen_val(r, "dec")
+            // declared without scale: values keep their own, often with many fraction digits
+            if r.chance(1, 2) {
+                DataValue::Decimal(v::mk_dec(r.chance(1, 3), r.below(1_000_000_000_000) as u128, 3 + r.below(9) as u32))
+            } else {
+                gen_val(r, "dec")
+            }
+        }
+        t if t.starts_with("decs") => {
+            // DECIMAL(28, k): a value the column can hold exactly (own scale <= k), moderate size
+            let k: u32 = t[4..].parse().unwrap();
+            let sc = r.below(k as u64 + 1) as u32;
+            DataValue::Decimal(v::mk_dec(r.chance(1, 3), r.below(1_000_000_000_000) as u128, sc))
         }
         _ => gen_val(r, ty),
     }
@@ -313,7 +327,7 @@ fn gen_requests(tier: &str, out: &str) {
         let numeric = |b: u8| b.is_ascii_alphanumeric() || b == b'.' || b == b'-' || b == b'+';
         let plain_opts = !(numeric(d) || numeric(q) || e.map(numeric).unwrap_or(false));
         let ncols = 1 + r.below(4) as usize;
-        let types: Vec<&str> = (0..ncols)
+        let mut types: Vec<&str> = (0..ncols)
             .map(|_| loop {
                 let t = if r.chance(1, 3) { "str" } else { *r.pick(TYPES) };
                 if plain_opts || !(t == "f64" || t == "dec") {
@@ -321,6 +335,28 @@ fn gen_requests(tier: &str, out: &str) {
                 }
             })
             .collect();
+        // decimal mixes: 2..5 decimal columns, unscaled ones before / between / after scaled ones of
+        // different scales, interleaved with the other columns (import rescales per COLUMN)
+        if plain_opts && r.chance(1, 4) {
+            const DECS: &[&str] = &["dec", "dec", "decs0", "decs1", "decs2", "decs4", "decs7"];
+            let nd = 2 + r.below(4) as usize;
+            let mut cols: Vec<&str> = (0..nd).map(|_| *r.pick(DECS)).collect();
+            match r.below(4) {
+                0 => cols[0] = "dec",
+                1 => *cols.last_mut().unwrap() = "dec",
+                2 if nd > 2 => cols[1] = "dec",
+                _ => {}
+            }
+            // at least one scaled one next to an unscaled one
+            if !cols.iter().any(|c| c.starts_with("decs")) {
+                cols[nd - 1] = "decs2";
+            }
+            for c in types.iter().take(r.below(3) as usize) {
+                let at = r.below(cols.len() as u64 + 1) as usize;
+                cols.insert(at, c);
+            }
+            types = cols;
+        }
         let nrows = r.below(7) as usize;
         let hazard = match r.below(10) {
             0 => 1,
